@@ -813,11 +813,11 @@ class rrule(rrulebase):
             # BYSETPOS selects positions within the whole week, as it does
             # within the whole month or year: begin the first period at the
             # week start (occurrences before dtstart are dropped below).
-            first = self._dtstart.toordinal() - (weekday - wkst) % 7
-            if first >= 1:
-                year, month, day = \
-                    datetime.date.fromordinal(first).timetuple()[:3]
-                weekday = wkst
+            # (A week that begins before 0001-01-01 is entered at that day.)
+            first = max(self._dtstart.toordinal() - (weekday - wkst) % 7, 1)
+            first = datetime.date.fromordinal(first)
+            year, month, day = first.timetuple()[:3]
+            weekday = first.weekday()
 
         ii = _iterinfo(self)
         ii.rebuild(year, month)
